@@ -45,6 +45,8 @@ SIGNED_PARAMS = ['secret', 'cookie_name', 'max_age', 'path', 'domain', 'secure',
 BASE_PARAMS = ['serializer', 'cookie_name', 'max_age', 'path', 'domain', 'secure', 'httponly', 'samesite', 'timeout',
                'reissue_time', 'set_on_exception']
 PASS = ('cookie_name', 'path', 'domain', 'secure', 'httponly', 'samesite')
+ATTR_FIELD = {'cookie_name': 'a_name', 'path': 'a_path', 'domain': 'a_domain', 'secure': 'a_secure',
+              'httponly': 'a_httponly', 'samesite': 'a_samesite'}
 MODELLED = {'max_age': 'max_age', 'timeout': 'timeout', 'reissue_time': 'reissue', 'set_on_exception': 'soe'}
 
 
@@ -263,6 +265,9 @@ def cfgv_lit(v):
         return '(CBool %s)' % ('true' if v else 'false')
     if isinstance(v, int):
         return '(CInt (%d)%%Z)' % v
+    if isinstance(v, str):
+        from harness.c10.translate import coq_text
+        return '(CStr %s)' % coq_text(v)
     raise Problem('default %r outside the table' % (v,))
 
 
@@ -274,13 +279,25 @@ class SignedFactory:
         fn = self.fn
         a = fn.args
         names = [x.arg for x in a.args]
-        if names != SIGNED_PARAMS or a.vararg or a.kwarg or a.kwonlyargs or fn.decorator_list:
+        # the ORDER of the parameters is translated (gen_sig: positional callers), as are the defaults (gen_defaults);
+        # only another SET of parameters, * / ** / keyword-only / positional-only markers are outside the subset
+        if sorted(names) != sorted(SIGNED_PARAMS) or a.vararg or a.kwarg or a.kwonlyargs or fn.decorator_list \
+                or getattr(a, 'posonlyargs', []):
             raise Problem('parameter list of SignedCookieSessionFactory changed: %s' % names)
+        self.sig = [SIGNED_PARAMS.index(n) for n in names]
+        nd = len(names) - len(a.defaults)
+        dflt = {}
+        for n, dnode in zip(names[nd:], a.defaults):
+            try:
+                dflt[n] = 'Some ' + cfgv_lit(ast.literal_eval(dnode))
+            except (ValueError, SyntaxError):
+                raise Problem('default of %s outside the table: %s' % (n, u(dnode)))
+        self.defaults = [dflt.get(n, 'None') for n in SIGNED_PARAMS]
         env = {'secret': ('fa_secret a', 'SECRET'), 'salt': ('fa_salt a', 'SALT'), 'hashalg': ('hashalg', 'HASHALG'),
                'serializer': ('None', 'NONE'), 'max_age': ('fa_max_age a', 'CFGV'), 'timeout': ('fa_timeout a', 'CFGV'),
                'reissue_time': ('fa_reissue a', 'CFGV'), 'set_on_exception': ('fa_soe a', 'CFGV')}
         for p in PASS:
-            env[p] = (p, 'PASS')
+            env[p] = ('(%s (fa_attrs a))' % ATTR_FIELD[p], 'CFGV')
         return self.block(_body(fn), env)
 
     def block(self, stmts, env):
@@ -355,12 +372,6 @@ class SignedFactory:
         if ty != 'SER':
             raise Problem('BaseCookieSessionFactory: serializer is a %s' % ty)
         fields = ['b_ser := %s' % t.strip()]
-        for p in PASS:
-            if p not in b:
-                raise Problem('BaseCookieSessionFactory: %s is not passed on' % p)
-            got = self.expr(b[p], env)
-            if got != (p, 'PASS'):
-                raise Problem('BaseCookieSessionFactory: %s=%s, expected the factory\'s %s' % (p, u(b[p]), p))
         for p, short in MODELLED.items():
             if p in b:
                 t, ty = self.expr(b[p], env)
@@ -371,11 +382,26 @@ class SignedFactory:
             else:
                 t = cfgv_lit(self.base_defaults.get(p))
             fields.append('b_%s := %s' % (short, t))
+        # the cookie attributes: whichever value is handed to each parameter (crossed ones are translated as crossed)
+        at = []
+        for p in PASS:
+            if p in b:
+                t, ty = self.expr(b[p], env)
+                if ty == 'NONE':
+                    t = 'CNone'
+                elif ty != 'CFGV':
+                    raise Problem('BaseCookieSessionFactory: %s=%s is a %s' % (p, u(b[p]), ty))
+            else:
+                t = cfgv_lit(self.base_defaults.get(p))
+            at.append('%s := %s' % (ATTR_FIELD[p], t))
+        fields.append('b_attrs := {| ' + ';\n                  '.join(at) + ' |}')
         return '{| ' + ';\n     '.join(fields) + ' |}'
 
 
 # ------------------------------------------------------------------------------------------ class-level conversion
 CONFIG_ATTRS = {'_cookie_max_age': 'm', '_reissue_time': 'r', '_timeout': 't'}       # canonical (sorted) order
+CONFIG_ATTR = {'_cookie_name': 'a_name', '_cookie_path': 'a_path', '_cookie_domain': 'a_domain',
+               '_cookie_secure': 'a_secure', '_cookie_httponly': 'a_httponly', '_cookie_samesite': 'a_samesite'}
 CONFIG_PARAM = {'max_age': 'b_max_age b', 'timeout': 'b_timeout b', 'reissue_time': 'b_reissue b',
                 'set_on_exception': 'b_soe b'}
 
@@ -414,11 +440,11 @@ class Config:
         for st in cls.body:
             if isinstance(st, ast.Assign) and len(st.targets) == 1 and isinstance(st.targets[0], ast.Name):
                 nm = st.targets[0].id
-                if nm in CONFIG_ATTRS or nm == '_cookie_on_exception':
+                if nm in CONFIG_ATTRS or nm == '_cookie_on_exception' or nm in CONFIG_ATTR:
                     if nm in vals:
                         raise Problem('%s is assigned twice in the class body' % nm)
                     vals[nm] = st.value
-        for nm in list(CONFIG_ATTRS) + ['_cookie_on_exception']:
+        for nm in list(CONFIG_ATTRS) + ['_cookie_on_exception'] + list(CONFIG_ATTR):
             if nm not in vals:
                 raise Problem('class attribute %s not found' % nm)
         soe = vals['_cookie_on_exception']
@@ -427,17 +453,29 @@ class Config:
         out = ''
         for nm, v in CONFIG_ATTRS.items():
             out += 'cfg_bind %s (fun %s =>\n' % (self.expr(vals[nm], frozenset()), v)
-        out += 'CfgOk {| c_max_age := m; c_timeout := t; c_reissue := r; c_soe := b_soe b |}' + ')' * len(CONFIG_ATTRS)
+        at = []
+        for nm, field in CONFIG_ATTR.items():
+            v = vals[nm]
+            if not (isinstance(v, ast.Name) and v.id in ATTR_FIELD):
+                raise Problem('%s = %s (expected one of the raw cookie options)' % (nm, u(v)))
+            at.append('%s := %s (b_attrs b)' % (field, ATTR_FIELD[v.id]))
+        out += ('CfgOk {| c_max_age := m; c_timeout := t; c_reissue := r; c_soe := b_soe b;\nc_attrs := {| '
+                + '; '.join(at) + ' |} |}' + ')' * len(CONFIG_ATTRS))
         return out
 
 
+DOC_SIG = '  doc_sig'
 FALLBACK = {
+    'gen_sig': '  doc_sig',
+    'gen_defaults': '  doc_defaults',
     'gen_canon_loads': '  canon_loads O inner bstruct',
     'gen_canon_dumps': '  inner appstruct',
     'gen_signed_factory': '  signed_factory a',
     'gen_config': '  config b',
 }
 SIGS = {
+    'gen_sig': ': list nat',
+    'gen_defaults': ': list (option cfgv)',
     'gen_canon_loads': '(O : oracles) (inner : text -> option jv) (bstruct : text) : option jv',
     'gen_canon_dumps': '(inner : jv -> text) (appstruct : jv) : text',
     'gen_signed_factory': '(a : fargs) : bargs',
@@ -467,7 +505,10 @@ def translate_source(text, base_defaults):
             problems.append('translator: SignedCookieSessionFactory not found (exactly once)')
         else:
             try:
-                bodies['gen_signed_factory'] = '  ' + SignedFactory(fns[0], base_defaults).translate()
+                sf = SignedFactory(fns[0], base_defaults)
+                bodies['gen_signed_factory'] = '  ' + sf.translate()
+                bodies['gen_sig'] = '  [' + '; '.join('%d' % i for i in sf.sig) + ']%nat'
+                bodies['gen_defaults'] = '  [' + ';\n   '.join(sf.defaults) + ']'
                 canonical = 'b_ser := (SCanon ' in bodies['gen_signed_factory']
                 if canonical and not present:
                     raise Problem('_CanonicalBase64Serializer is used but not defined')
@@ -485,7 +526,7 @@ def translate_source(text, base_defaults):
             except Problem as e:
                 problems.append('translator: CookieSession option conversion: %s' % e)
     out = []
-    for gen in ('gen_canon_loads', 'gen_canon_dumps', 'gen_signed_factory', 'gen_config'):
+    for gen in ('gen_canon_loads', 'gen_canon_dumps', 'gen_signed_factory', 'gen_config', 'gen_sig', 'gen_defaults'):
         body = bodies.get(gen)
         if body is None:
             summary.setdefault(gen, 'FALLBACK (reference model text)')
@@ -494,3 +535,229 @@ def translate_source(text, base_defaults):
             summary[gen] = 'translated from source (%d lines of Gallina)' % (body.count('\n') + 1)
         out.append('Definition %s %s :=\n%s.\n' % (gen, SIGS[gen], body))
     return '\n'.join(out), problems, summary, canonical
+
+
+# ------------------------------------------------------------------------------------------ request.py plumbing
+PLUMBING_TRANSLATED = [
+    'pyramid/request.py:CallbackMethodsMixin.response_callbacks',
+    'pyramid/request.py:CallbackMethodsMixin.add_response_callback',
+    'pyramid/request.py:CallbackMethodsMixin._process_response_callbacks',
+    'pyramid/request.py:Request.session',
+]
+PL_FALLBACK = {
+    'gen_add_cb': 'Definition gen_add_cb (q : list cb) (callback : cb) : list cb :=\n  q ++ [callback].\n',
+    'gen_process_cbs': ('Fixpoint gen_process_cbs {A} (call : cb -> A -> A) (q : list cb) (a : A) : A :=\n'
+                        '  match q with [] => a | callback :: q\' => gen_process_cbs call q\' (call callback a) end.\n'),
+    'gen_request_session': ('Definition gen_request_session {A} (factory : option (unit -> A)) : option A :=\n'
+                            '  match factory with None => None | Some f => Some (f tt) end.\n'),
+}
+
+
+def _find(tree, qual):
+    node = tree
+    for part in qual.split('.'):
+        nxt = [c for c in node.body if isinstance(c, (ast.FunctionDef, ast.ClassDef)) and c.name == part]
+        if len(nxt) != 1:
+            return None
+        node = nxt[0]
+    return node
+
+
+def _tr_add_cb(fn):
+    """def add_response_callback(self, callback): self.response_callbacks.append(callback)"""
+    names = [x.arg for x in fn.args.args]
+    b = _body(fn)
+    if len(names) != 2 or fn.args.defaults or fn.args.vararg or fn.args.kwarg or fn.decorator_list or len(b) != 1:
+        raise Problem('expected one statement and the parameters (self, callback)')
+    for meth, term in (('append', 'q ++ [callback]'), ('appendleft', 'callback :: q')):
+        if u(b[0]) == '%s.response_callbacks.%s(%s)' % (names[0], meth, names[1]):
+            return 'Definition gen_add_cb (q : list cb) (callback : cb) : list cb :=\n  %s.\n' % term
+    raise Problem('statement outside the table: %s' % u(b[0]))
+
+
+def _tr_process(fn):
+    """callbacks = self.response_callbacks; while callbacks: callback = callbacks.popleft(); callback(self, response)
+    (the alias is optional; `while len(q):` / `while len(q) > 0:` are the same test)"""
+    names = [x.arg for x in fn.args.args]
+    if len(names) != 2 or fn.args.defaults or fn.args.vararg or fn.args.kwarg or fn.decorator_list:
+        raise Problem('expected the parameters (self, response)')
+    b = _body(fn)
+    q = '%s.response_callbacks' % names[0]
+    if len(b) == 2 and isinstance(b[0], ast.Assign) and len(b[0].targets) == 1 and isinstance(b[0].targets[0], ast.Name) \
+            and u(b[0].value) == q:
+        q = b[0].targets[0].id
+        b = b[1:]
+    if len(b) != 1 or not isinstance(b[0], ast.While) or b[0].orelse:
+        raise Problem('expected a single while loop over the callback queue')
+    w = b[0]
+    if u(w.test) not in (q, 'len(%s)' % q, 'len(%s) > 0' % q, 'len(%s) != 0' % q):
+        raise Problem('loop condition outside the table: %s' % u(w.test))
+    wb = _body(w)
+    if len(wb) == 2 and isinstance(wb[0], ast.Assign) and len(wb[0].targets) == 1 and isinstance(wb[0].targets[0], ast.Name) \
+            and u(wb[0].value) == '%s.popleft()' % q and u(wb[1]) == '%s(%s, %s)' % (wb[0].targets[0].id, names[0], names[1]):
+        return PL_FALLBACK['gen_process_cbs']
+    if len(wb) == 1 and u(wb[0]) == '%s.popleft()(%s, %s)' % (q, names[0], names[1]):
+        return PL_FALLBACK['gen_process_cbs']
+    raise Problem('loop body outside the table (expected: take the OLDEST callback off the queue, call it with '
+                  '(self, response)): %s' % '; '.join(u(x) for x in wb))
+
+
+def _tr_session(fn):
+    """@reify def session(self): factory = self.registry.queryUtility(ISessionFactory); if factory is None: raise
+    AttributeError(..); return factory(self)"""
+    names = [x.arg for x in fn.args.args]
+    if len(names) != 1 or [u(d) for d in fn.decorator_list] != ['reify']:
+        raise Problem('expected @reify def session(self)')
+    me = names[0]
+    b = _body(fn)
+    lookup = '%s.registry.queryUtility(ISessionFactory)' % me
+    if b and isinstance(b[0], ast.Assign) and len(b[0].targets) == 1 and isinstance(b[0].targets[0], ast.Name) \
+            and u(b[0].value) == lookup:
+        f = b[0].targets[0].id
+        rest = b[1:]
+        # if f is None: raise AttributeError(..) ; return f(self)      or     if f is not None: return f(self) ; raise
+        if len(rest) == 2 and isinstance(rest[0], ast.If) and not rest[0].orelse and len(rest[0].body) == 1:
+            nt = _none_test(rest[0].test)
+            inner, last = rest[0].body[0], rest[1]
+            is_raise = lambda x: isinstance(x, ast.Raise) and isinstance(x.exc, ast.Call) and u(x.exc.func) == 'AttributeError'
+            is_ret = lambda x: isinstance(x, ast.Return) and u(x.value) == '%s(%s)' % (f, me)
+            if nt is not None and u(nt[0]) == f and ((nt[1] and is_raise(inner) and is_ret(last))
+                                                     or (not nt[1] and is_ret(inner) and is_raise(last))):
+                return PL_FALLBACK['gen_request_session']
+    raise Problem('body outside the table (expected: look the ISessionFactory utility up, AttributeError if there is '
+                  'none, else return factory(self))')
+
+
+def translate_plumbing(text):
+    problems, summary, out = [], {}, []
+    try:
+        tree = ast.parse(text)
+    except SyntaxError as e:
+        tree = None
+        problems.append('translator: cannot parse request.py: %s' % e)
+    jobs = [('gen_add_cb', 'CallbackMethodsMixin.add_response_callback', _tr_add_cb),
+            ('gen_process_cbs', 'CallbackMethodsMixin._process_response_callbacks', _tr_process),
+            ('gen_request_session', 'Request.session', _tr_session)]
+    if tree is not None:
+        rc = _find(tree, 'CallbackMethodsMixin.response_callbacks')
+        if rc is None or [u(d) for d in rc.decorator_list] != ['reify'] or [u(x) for x in _body(rc)] != ['return deque()']:
+            problems.append('translator: CallbackMethodsMixin.response_callbacks is not `@reify .. return deque()`')
+        if not any(isinstance(st, ast.ImportFrom) and st.module == 'collections' and 'deque' in [a.name for a in st.names]
+                   for st in tree.body):
+            problems.append('translator: request.py: `from collections import deque` missing')
+        cls = _find(tree, 'Request')
+        if cls is None or 'CallbackMethodsMixin' not in [u(b) for b in cls.bases]:
+            problems.append('translator: Request no longer derives from CallbackMethodsMixin')
+    for gen, qual, fn in jobs:
+        text_out = None
+        if tree is not None:
+            node = _find(tree, qual)
+            if node is None:
+                problems.append('translator: %s not found (exactly once) in request.py' % qual)
+            else:
+                try:
+                    text_out = fn(node)
+                    summary[gen] = 'translated from source'
+                except Problem as e:
+                    problems.append('translator: %s: %s' % (qual, e))
+        if text_out is None:
+            summary[gen] = 'FALLBACK (reference text)'
+            text_out = PL_FALLBACK[gen]
+        out.append(text_out)
+    return '\n'.join(out), problems, summary
+
+
+# ------------------------------------------------------------------------------------------ router.py: invoke_request
+ROUTER_TRANSLATED = ['pyramid/router.py:Router.invoke_request']
+INVOKE_TEXT = ('Definition gen_invoke_request {R} (handle : option R) (has_callbacks : bool) (process : R -> R) '
+               ': option R :=\n  match handle with\n  | None => None      (* handle_request raised: no response, no callbacks *)\n'
+               '  | Some response => Some (%s)\n  end.\n')
+INVOKE_FALLBACK = INVOKE_TEXT % 'if has_callbacks then process response else response'
+
+
+def _tr_invoke(fn):
+    """Router.invoke_request(self, request, _use_tweens=True):
+         <locals: registry / has_listeners / notify>; handle_request = self.handle_request | self.orig_handle_request
+         try: response = handle_request(request)
+              [if request.response_callbacks:] request._process_response_callbacks(response)
+              has_listeners and notify(NewResponse(request, response))        (AFTER the callbacks)
+              return response
+         finally: self.finish_request(request)"""
+    names = [x.arg for x in fn.args.args]
+    if len(names) != 3 or names[2] != '_use_tweens' or [u(d) for d in fn.args.defaults] != ['True'] or fn.decorator_list:
+        raise Problem('expected the parameters (self, request, _use_tweens=True)')
+    me, req = names[0], names[1]
+    handlers = set()
+    body = _body(fn)
+    pure = {'%s.registry' % me, 'registry.has_listeners', 'registry.notify', '%s.registry.has_listeners' % me,
+            '%s.registry.notify' % me}
+    i = 0
+    while i < len(body) and not isinstance(body[i], ast.Try):
+        st = body[i]
+        if isinstance(st, ast.Assign) and len(st.targets) == 1 and isinstance(st.targets[0], ast.Name) and u(st.value) in pure:
+            pass
+        elif isinstance(st, ast.If) and u(st.test) in ('_use_tweens', 'not _use_tweens') and len(st.body) == 1 \
+                and len(st.orelse) == 1 and all(
+                    isinstance(x, ast.Assign) and len(x.targets) == 1 and isinstance(x.targets[0], ast.Name)
+                    and u(x.value) in ('%s.handle_request' % me, '%s.orig_handle_request' % me)
+                    for x in (st.body[0], st.orelse[0])) and st.body[0].targets[0].id == st.orelse[0].targets[0].id \
+                and u(st.body[0].value) == ('%s.handle_request' % me if u(st.test) == '_use_tweens'
+                                            else '%s.orig_handle_request' % me) \
+                and u(st.body[0].value) != u(st.orelse[0].value):
+            handlers.add(st.body[0].targets[0].id)
+        elif isinstance(st, ast.Assign) and len(st.targets) == 1 and isinstance(st.targets[0], ast.Name) \
+                and u(st.value) == '%s.handle_request if _use_tweens else %s.orig_handle_request' % (me, me):
+            handlers.add(st.targets[0].id)
+        else:
+            raise Problem('statement outside the table: %s' % u(st))
+        i += 1
+    if i != len(body) - 1:
+        raise Problem('expected try/finally as the last statement')
+    t = body[i]
+    if t.handlers or t.orelse or [u(x) for x in t.finalbody] != ['%s.finish_request(%s)' % (me, req)]:
+        raise Problem('expected try: .. finally: self.finish_request(request) without except clauses')
+    tb = _body(t)
+    if len(tb) != 4 or not (isinstance(tb[0], ast.Assign) and len(tb[0].targets) == 1 and isinstance(tb[0].targets[0], ast.Name)
+                            and isinstance(tb[0].value, ast.Call) and u(tb[0].value.func) in handlers
+                            and [u(a) for a in tb[0].value.args] == [req] and not tb[0].value.keywords):
+        raise Problem('try body outside the table (expected: response = handle_request(request); callbacks; '
+                      'NewResponse; return response)')
+    resp = tb[0].targets[0].id
+    call = '%s._process_response_callbacks(%s)' % (req, resp)
+    if u(tb[1]) == call:
+        term = 'process response'
+    elif isinstance(tb[1], ast.If) and not tb[1].orelse and [u(x) for x in tb[1].body] == [call] \
+            and u(tb[1].test) in ('%s.response_callbacks' % req, 'len(%s.response_callbacks)' % req,
+                                  'len(%s.response_callbacks) > 0' % req):
+        term = 'if has_callbacks then process response else response'
+    else:
+        raise Problem('callback step outside the table: %s' % u(tb[1]))
+    if u(tb[2]) not in ('has_listeners and notify(NewResponse(%s, %s))' % (req, resp),
+                        'registry.has_listeners and registry.notify(NewResponse(%s, %s))' % (req, resp)) \
+            and not (isinstance(tb[2], ast.If) and u(tb[2].test) == 'has_listeners' and not tb[2].orelse
+                     and [u(x) for x in tb[2].body] == ['notify(NewResponse(%s, %s))' % (req, resp)]):
+        raise Problem('NewResponse step outside the table: %s' % u(tb[2]))
+    if u(tb[3]) != 'return %s' % resp:
+        raise Problem('expected `return response`: %s' % u(tb[3]))
+    return INVOKE_TEXT % term
+
+
+def translate_router(text):
+    problems, summary = [], {}
+    out = None
+    try:
+        tree = ast.parse(text)
+        node = _find(tree, 'Router.invoke_request')
+        if node is None:
+            problems.append('translator: Router.invoke_request not found (exactly once) in router.py')
+        else:
+            out = _tr_invoke(node)
+            summary['gen_invoke_request'] = 'translated from source'
+    except SyntaxError as e:
+        problems.append('translator: cannot parse router.py: %s' % e)
+    except Problem as e:
+        problems.append('translator: Router.invoke_request: %s' % e)
+    if out is None:
+        summary['gen_invoke_request'] = 'FALLBACK (reference text)'
+        out = INVOKE_FALLBACK
+    return out, problems, summary
